@@ -69,6 +69,13 @@ def stepNum (args : List String) : String :=
       let (x, d) := Libvna.LA.minverse CF.abs v.toArray n
       "ok " ++ cfToHex d ++ " X " ++ joinHex x.toList
     | _, _ => "bad-args"
+  | "qrsolve" :: ms :: ns :: os :: rest =>
+    match ms.toNat?, ns.toNat?, os.toNat?, parseCFs rest with
+    | some m, some n, some o, some v =>
+      if v.length != m * n + m * o then "bad-args" else
+      let (x, _) := Libvna.LA.qrsolve Libvna.cfQROps (v.take (m * n)).toArray (v.drop (m * n)).toArray m n o
+      "ok ? X " ++ joinHex x.toList
+    | _, _, _, _ => "bad-args"
   | "lu" :: ns :: rest =>
     match ns.toNat?, parseCFs rest with
     | some n, some v =>
